@@ -341,3 +341,75 @@ async fn routing_work_gate_contract() {
         if !accepted && work >= needed { witness(format!("block meeting the routing work requirement was refused: {}", desc)); }
     }
 }
+
+/// C13: when a block falls out of the retention window, each of its still-unspent outputs is handled exactly once by
+/// the next block: it comes back to the same owner with value × multiplier − rebroadcast fee, or, if too small to pay
+/// the fee, it does not come back; nothing else is rebroadcast. (Chain of genesis_period + 2 blocks built by the
+/// node's own producer; the expectation is recomputed here from the parent block's header and the ledger before the
+/// block was added. Transactions with NFT-bound slips are not produced by this scenario.)
+#[tokio::test]
+#[serial_test::serial]
+async fn rebroadcast_handles_each_unspent_output_once() {
+    let mut t = TestManager::default();
+    t.initialize(100, 200_000_000_000_000).await;
+    let gp = { t.config_lock.read().await.get_consensus_config().unwrap().genesis_period };
+    // blocks 2 ..= gp + 1: nothing is old enough to be rebroadcast yet
+    for k in 0..gp {
+        let tip = t.get_latest_block().await;
+        // a golden ticket in two of every three blocks keeps the 2-of-6 rule satisfied and the mining difficulty flat
+        let mut b = t.create_block(tip.hash, tip.timestamp + 120_000, 1, 1000, 0, k % 2 == 0).await;
+        b.generate().unwrap();
+        let r = t.add_block(b).await;
+        if std::env::var("VERIF_TRACE").is_ok() { eprintln!("set-up block {} added", k + 2); }
+        assert!(matches!(r, AddBlockResult::BlockAddedSuccessfully(..)), "set-up block {} not added: {:?}", k + 2, r);
+    }
+    for round in 0..3u64 {
+        let parent = t.get_latest_block().await;
+        let pruned_id = parent.id + 1 - (gp + 1);
+        // the ledger as it is before the next block is added
+        let (pruned, utxo_before): (Block, Vec<SaitoUTXOSetKey>) = {
+            let bc = t.blockchain_lock.read().await;
+            let h = bc.blockring.get_longest_chain_block_hash_at_block_id(pruned_id).expect("pruned block on chain");
+            let mut stored = bc.blocks.get(&h).unwrap().clone();
+            if stored.transactions.is_empty() {
+                stored = t.storage.load_block_from_disk(t.storage.generate_block_filepath(&stored).as_str()).await.expect("block on disk");
+                stored.generate().unwrap();
+            }
+            (stored, bc.utxoset.iter().filter(|(_, v)| **v).map(|(k, _)| *k).collect())
+        };
+        let mut b = t.create_block(parent.hash, parent.timestamp + 120_000, 1, 1000, 0, (gp + round) % 2 == 0).await;
+        b.generate().unwrap();
+        let new_block = b.clone();
+        let res = t.add_block(b).await;
+        assert!(matches!(res, AddBlockResult::BlockAddedSuccessfully(..)), "the producer's own block must be accepted: {:?}", res);
+        let staked = gp * parent.avg_nolan_rebroadcast_per_block;
+        let mult = 1 + if staked > 0 { parent.treasury / staked } else { 0 };
+        let atrs: Vec<&Transaction> = new_block.transactions.iter().filter(|tx| tx.transaction_type == TransactionType::ATR).collect();
+        let mut expected = 0usize;
+        for tx in pruned.transactions.iter() {
+            let fee = tx.get_serialized_size() as u64 * parent.avg_fee_per_byte;
+            for (idx, out) in tx.to.iter().enumerate() {
+                let unspent = out.amount == 0 || utxo_before.contains(&out.utxoset_key);
+                if !unspent { continue; }
+                let grown = out.amount * mult;
+                let matching: Vec<&&Transaction> = atrs.iter().filter(|a| a.from.len() == 1 && a.from[0].public_key == out.public_key && a.from[0].block_id == out.block_id
+                    && a.from[0].tx_ordinal == out.tx_ordinal && a.from[0].slip_index == out.slip_index && a.signature == tx.signature).collect();
+                let desc = format!("round {}: block {} adds on parent {}, pruned block {}: output #{} of a {:?} transaction, amount {}, multiplier {}, rebroadcast fee {}", round, new_block.id, parent.id, pruned_id, idx, tx.transaction_type, out.amount, mult, fee);
+                if grown > fee {
+                    expected += 1;
+                    if matching.len() != 1 { witness(format!("an unspent output of the block leaving the window comes back {} times (must be exactly once): {}", matching.len(), desc)); }
+                    let a = matching[0];
+                    // (the 5 %-of-treasury cap rewrites the amounts without the fee; it does not trigger with a multiplier of 1)
+                    if a.to.len() != 1 || a.to[0].public_key != out.public_key || a.to[0].slip_type != SlipType::ATR || (mult == 1 && a.to[0].amount != grown - fee) {
+                        witness(format!("rebroadcast output is not (same owner, value × multiplier − fee = {}): got {:?} of amount {} for key {:?}… : {}", grown - fee, a.to[0].slip_type, a.to[0].amount, &a.to[0].public_key[..4], desc));
+                    }
+                } else if !matching.is_empty() {
+                    witness(format!("an output too small to pay the rebroadcast fee was rebroadcast anyway: {}", desc));
+                }
+            }
+        }
+        if std::env::var("VERIF_TRACE").is_ok() { eprintln!("round {}: pruned block {} → {} rebroadcasts expected, {} found, multiplier {}", round, pruned_id, expected, atrs.len(), mult); }
+        if round == 0 { assert!(expected > 0, "scenario must exercise the rebroadcast path"); }
+        if atrs.len() != expected { witness(format!("round {}: block {} carries {} rebroadcast transactions, the block leaving the window has {} unspent outputs worth rebroadcasting", round, new_block.id, atrs.len(), expected)); }
+    }
+}
